@@ -19,7 +19,7 @@ import (
 func init() {
 	Register(&Property{
 		ID: "C18",
-		Explanation: "Decides that both directions of each relationship encoding talk about the same keys, fields and separators: (R18.1) the set of (URL key, struct field) pairs written by ToURLQuery equals the set read by FromURLQuery, for queries and subject sets, the subject-id and subject-set key groups are disjoint, and every key write is guarded by presence tests only (never by the value); (R18.2) the protobuf decoders read the same (message field, struct field) pairs the encoders write, and discriminate the subject oneof by its presence (a type switch on the wrapper), never by the emptiness of a value; (R18.3) the separators the string form writes, in order, are the separators FromString cuts on, in order, and the relation-tuple file parser hands each trimmed line to FromString unmodified (comments are recognised by prefix only); (R18.4) every exported field of the API structs has a JSON name and no two fields of a struct share one. " +
+		Explanation: "Decides that both directions of each relationship encoding talk about the same keys, fields and separators: (R18.1) the set of (URL key, struct field) pairs written by ToURLQuery equals the set read by FromURLQuery, for queries and subject sets, the subject-id and subject-set key groups are disjoint, and every key write is guarded by presence tests only (never by the value); (R18.2) the protobuf decoders read the same (message field, struct field) pairs the encoders write, and discriminate the subject oneof by its presence (a type switch on the wrapper), never by the emptiness of a value; (R18.3) the separators the string form writes, in order, are the separators FromString cuts on, in order, and the relation-tuple file parser hands each trimmed line to FromString unmodified (comments are recognised by prefix only); (R18.5) inside a loop the receiver of a ketoapi decoder is allocated in that loop (decoders leave fields they do not find untouched, so a reused receiver carries the previous value's fields over); (R18.4) every exported field of the API structs has a JSON name and no two fields of a struct share one. " +
 			"Not decided: round-trip equality over all strings, escaping, the documented domain restriction of the string form.",
 		Assumptions: []string{"encoding/json is symmetric for tagged exported fields"},
 		Run:         runC18,
@@ -250,6 +250,7 @@ func runC18(c *Ctx) {
 	r182(c, pkg)
 	r183(c, pkg)
 	r184(c, pkg)
+	freshDecodeReceivers(c, "R18.5")
 }
 
 // ---- R18.2 protobuf --------------------------------------------------------------------------------
@@ -555,4 +556,60 @@ func r184(c *Ctx, pkg *packages.Package) {
 		r.Undecide("R18.4", "", "API structs", "", fmt.Sprintf("%d found (floor 5)", n))
 	}
 	_ = token.NoPos
+}
+
+// ---- R18.5 every decoded value gets a fresh receiver -------------------------------------------------
+
+// freshDecodeReceivers: the decoders (FromDataProvider, FromProto, FromURLQuery,
+// FromString, Unmarshal*) set the fields they find and leave the others alone.
+// Decoding several values into one variable that lives across loop iterations
+// carries fields of the previous value into the next (a subject id surviving
+// into a subject-set tuple). Inside a loop the receiver of a decoder is
+// allocated in that loop.
+func freshDecodeReceivers(c *Ctx, rule string) {
+	p, r := c.P, c.R
+	n := 0
+	var bad []string
+	for _, rel := range []string{"internal/relationtuple", "internal/check", "internal/expand", "ketoapi", "cmd/relationtuple", "cmd/check", "cmd/expand"} {
+		for _, fn := range p.KetoFuncs(rel) {
+			core.Instrs(fn, func(b *ssa.BasicBlock, _ int, ins ssa.Instruction) {
+				call, ok := ins.(*ssa.Call)
+				if !ok {
+					return
+				}
+				obj := core.CalleeObj(&call.Call)
+				if obj == nil || !(strings.HasPrefix(obj.Name(), "From") || strings.HasPrefix(obj.Name(), "Unmarshal")) {
+					return
+				}
+				if obj.Pkg() == nil || !strings.HasSuffix(obj.Pkg().Path(), "/ketoapi") {
+					return
+				}
+				sig := obj.Type().(*types.Signature)
+				if sig.Recv() == nil || len(call.Call.Args) == 0 {
+					return
+				}
+				if _, isPtr := sig.Recv().Type().Underlying().(*types.Pointer); !isPtr {
+					return
+				}
+				n++
+				if !core.InLoop(b) {
+					return
+				}
+				al, ok := core.ValueOrigin(call.Call.Args[0]).(*ssa.Alloc)
+				if !ok {
+					return
+				}
+				if !sameCycle(al.Block(), b) {
+					bad = append(bad, fmt.Sprintf("%s: %s decodes into %s, which is allocated outside the loop at %s", p.Pos(call.Pos()), obj.Name(), al.Comment, p.Pos(al.Pos())))
+				}
+			})
+		}
+	}
+	if n < 8 {
+		r.Undecide(rule, "", "decoder calls", "", fmt.Sprintf("%d calls of ketoapi decoders found (floor 8)", n))
+		return
+	}
+	r.Check(len(bad) == 0, rule, "handlers and CLI", "decoders in loops get fresh receivers", "",
+		fmt.Sprintf("none of the %d decoder calls reuses a receiver across loop iterations", n),
+		strings.Join(bad, "; ")+": fields the decoder does not set keep the value of the previous iteration (e.g. the subject id of the tuple before)")
 }
